@@ -25,6 +25,16 @@ int verif_printf(const char *fmt, ...);
 
 #undef snprintf
 #undef printf
+#ifdef FMT_TRIVIAL
+/* termination-only queries (H-PRINT-BIG): the formatting functions are reduced to "returns some length 0..24,
+   stores at most a terminator"; arguments are not evaluated. Sound for "does the library loop terminate": the
+   library's control flow sees every return value a real call could produce for its directives. */
+int verif_snprintf_t(char *s, size_t size);
+int verif_printf_t(void);
+#define snprintf(s, n, ...) verif_snprintf_t((s), (n))
+#define printf(...) verif_printf_t()
+#else
 #define snprintf(s, n, ...) verif_snprintf((s), (n), VERIF_PN(__VA_ARGS__))
 #define printf(...) verif_printf(VERIF_PN(__VA_ARGS__))
+#endif
 #endif
